@@ -1428,3 +1428,38 @@ package ring
 //@   loop 0 invariant 0 <= i && i <= r.level+1
 //@   loop 0 invariant forall(k, 0, i, sout[k] == MRedLazy(old(s1[k]), old(s2[k]), r.SubRings[k].Modulus, r.SubRings[k].MRedConstant))
 //@   loop 0 invariant forall(k, i, r.level+1, s1[k] == old(s1[k]) && s2[k] == old(s2[k]))
+
+// ---- modular exponentiation in Montgomery form (property C15: Ring.Inverse is the Fermat inverse) ----
+// winv = -(q*mredconstant)/2^64 satisfies 2^64 * winv = 1 (mod q); t*winv is the value a Montgomery
+// representative t stands for.  The result stands for (value of x)^e.
+//@ func ModexpMontgomery
+//@   property C15
+//@   requires mredpre(q, mredconstant) && bredpre(q, bredconstant[0], bredconstant[1]) && q < 1<<61 && x < q && 0 <= e
+//@   let x0 = old(x)
+//@   let winv = 0 - (q*mredconstant)/W
+//@   ensures result < q
+//@   ensures cong(result * winv, pow(x0 * winv, e), q) by pow_zero(x * winv); cong_refl(result * winv, q)
+//@   loop 0 invariant 0 <= i && i <= e && result < q && x < q
+//@   loop 0 invariant cong(W * winv, 1, q)
+//@   loop 0 invariant cong(result * winv * pow(x * winv, i), pow(x0 * winv, e), q)
+//@   loop 0 decreases i
+//@   loop 0 lemma cong_intro(W * winv, 1, 0 - mredconstant, q); cong_refl(pow(x * winv, i), q); cong_scale(result, W, winv, q); cong_trans(result*winv, W*winv, 1, q); cong_scale(result*winv, 1, pow(x*winv, i), q)
+//@   loop 0 lemma pow_even(prev(x)*winv, prev(i)); pow_odd(prev(x)*winv, prev(i))
+//@   loop 0 lemma cong_scale(x*W, prev(x)*prev(x), winv*winv, q); cong_scale(W*winv, 1, x*winv, q); cong_trans(x*winv, x*W*winv*winv, prev(x)*prev(x)*winv*winv, q); cong_sym(x*W*winv*winv, x*winv, q)
+//@   loop 0 lemma pow_cong(x*winv, prev(x)*winv*prev(x)*winv, i, q)
+//@   loop 0 lemma cong_scale(result*W, prev(result)*prev(x), winv*winv, q); cong_scale(W*winv, 1, result*winv, q); cong_sym(result*W*winv*winv, result*winv, q); cong_trans(result*winv, result*W*winv*winv, prev(result)*prev(x)*winv*winv, q)
+//@   loop 0 lemma mulhyp(pow(prev(x)*winv, prev(i)), pow(prev(x)*winv*prev(x)*winv, i), prev(result)*winv); mulhyp(pow(prev(x)*winv, prev(i)), prev(x)*winv*pow(prev(x)*winv*prev(x)*winv, i), prev(result)*winv)
+//@   loop 0 lemma cong_scale(pow(x*winv, i), pow(prev(x)*winv*prev(x)*winv, i), prev(result)*winv, q); cong_scale(pow(x*winv, i), pow(prev(x)*winv*prev(x)*winv, i), prev(result)*prev(x)*winv*winv, q)
+//@   loop 0 lemma cong_scale(result*winv, prev(result)*prev(x)*winv*winv, pow(x*winv, i), q)
+//@   loop 0 lemma cong_trans(result*winv*pow(x*winv, i), prev(result)*prev(x)*winv*winv*pow(x*winv, i), prev(result)*prev(x)*winv*winv*pow(prev(x)*winv*prev(x)*winv, i), q)
+//@   loop 0 lemma cong_trans(result*winv*pow(x*winv, i), prev(result)*prev(x)*winv*winv*pow(prev(x)*winv*prev(x)*winv, i), pow(x0*winv, e), q)
+//@   loop 0 lemma cong_trans(result*winv*pow(x*winv, i), prev(result)*winv*pow(prev(x)*winv*prev(x)*winv, i), pow(x0*winv, e), q)
+
+//@ func Ring.Inverse
+//@   property C15
+//@   requires ringwf(r) && r.level < len(a)
+//@   requires forall(k, 0, r.level+1, mredpre(r.SubRings[k].Modulus, r.SubRings[k].MRedConstant) && bredpre(r.SubRings[k].Modulus, r.SubRings[k].BRedConstant[0], r.SubRings[k].BRedConstant[1]) && r.SubRings[k].Modulus < 1<<61 && a[k] < r.SubRings[k].Modulus)
+//@   ensures forall(k, 0, r.level+1, a[k] == ModexpMontgomery(old(a[k]), r.SubRings[k].Modulus - 2, r.SubRings[k].Modulus, r.SubRings[k].MRedConstant, r.SubRings[k].BRedConstant))
+//@   loop 0 invariant 0 <= i && i <= r.level+1
+//@   loop 0 invariant forall(k, 0, i, a[k] == ModexpMontgomery(old(a[k]), r.SubRings[k].Modulus - 2, r.SubRings[k].Modulus, r.SubRings[k].MRedConstant, r.SubRings[k].BRedConstant))
+//@   loop 0 invariant forall(k, i, r.level+1, a[k] == old(a[k]))
